@@ -362,6 +362,11 @@ def into_iter_value(e, v):
 def iter_next(e, it):
     """returns (True, value) or (False, None)"""
     if type(it) is Ref: it = unref(it)
+    if type(it) is Adt:
+        f = e.impls.get((base(it.ty), 'Iterator', 'next'))
+        if f is None: raise Unsupported('next on %r' % (it,))
+        r = e.exec_fn(f, [Ref(Cell(it), True)])
+        return (True, r.fields[0].v) if r.variant == 'Some' else (False, None)
     if it.peeked is not None:
         p = it.peeked; it.peeked = None
         return p
@@ -372,6 +377,8 @@ def iter_next(e, it):
         return (False, None)
     if type(it) is LazyIter:
         k = it.kind
+        if k == 'peekable':
+            return iter_next(e, it.inner)
         if k == 'map':
             okk, v = iter_next(e, it.inner)
             if not okk: return (False, None)
@@ -454,7 +461,7 @@ def m_iter_peek(e, c, a):
     if it.peeked is None: it.peeked = iter_next(e, it)
     okk, v = it.peeked
     return some(Ref(Cell(v))) if okk else none()
-def m_iter_peekable(e, c, a): return a[0]
+def m_iter_peekable(e, c, a): return LazyIter('peekable', a[0])
 def m_iter_by_ref(e, c, a): return a[0]
 def m_iter_map(e, c, a): return LazyIter('map', a[0], a[1])
 def m_iter_filter(e, c, a): return LazyIter('filter', a[0], a[1])
@@ -1263,6 +1270,8 @@ MODELS = [(re.compile(p, re.S), f) for p, f in [
     (r'<(&str|str|std::string::String|char) as (std::string::)?ToString>::to_string$', m_to_string),
     (r'std::string::String::as_str$|std::string::String::as_mut_str$', m_as_str),
     (r'<std::string::String as Deref>::deref$', m_ident),
+    (r'<std::string::String as Add<&str>>::add$', lambda e, c, a: Str(as_str(a[0]).chars + as_str(a[1]).chars)),
+    (r'<std::string::String as AddAssign<&str>>::add_assign$', m_push_str),
     (r'<std::string::String as AsRef<str>>::as_ref$|<str as AsRef<str>>::as_ref$', m_ident),
     (r'std::string::String::(new|with_capacity)$', m_string_new),
     (r'std::string::String::push_str$', m_push_str),
